@@ -69,7 +69,7 @@ BOOLFMTS = [None, 'Y|N', '1|0']
 #: out of the table layers, whose cases share a worker process on purpose
 #: without resetting it, so that a verdict never depends on which cases a
 #: worker happened to run before
-BOOLFMTS_WIDE = BOOLFMTS + ['N|Y', 'T|F', 'F|T']
+BOOLFMTS_WIDE = BOOLFMTS + ['N|Y', 'T|F', 'F|T', '0|1', 'false|true']
 
 #: csv2pandas keywords, each at ONE non-default value for which the statement
 #: still decides the outcome (declared names / types / values win):
@@ -712,8 +712,9 @@ class C16(Check):
         'seen by the absolute oracle, not by the differential clause',
         'boolean spellings that pandas itself reads with the OTHER polarity '
         '("0|1", "false|true": pandas\' built-in 1/true and 0/false win over '
-        'true_values/false_values) are not generated: see the final report '
-        'of round 3 (candidate finding, silently wrong values on /repo HEAD)',
+        'true_values/false_values) are generated in the history layers (each '
+        'also loaded alone); the silently wrong values they give on /repo are '
+        'a recorded known finding',
     ]
 
     # -------------------------------------------------------------- layers
